@@ -44,7 +44,7 @@ def scenario(job: dict[str, Any]) -> dict[str, Any]:
     W.preload()
     root = scratch("c07-")
     src, cache, gate = os.path.join(root, "src"), os.path.join(root, "cache"), os.path.join(root, "gate")
-    out: dict[str, Any] = {"runs": [], "violations": [], "job": {k: job[k] for k in ("shape", "n", "variants", "store", "ign") if k in job}}
+    out: dict[str, Any] = {"runs": [], "violations": [], "job": {k: job[k] for k in ("shape", "n", "variants", "store", "ign", "uw") if k in job}}
     shape, n, store = job["shape"], job["n"], job["store"]
     tick = 1000
 
@@ -65,19 +65,20 @@ def scenario(job: dict[str, Any]) -> dict[str, Any]:
 
     variants = job["variants"]
     ign = tuple(job.get("ign", ()))
-    par.write_program(src, shape, variants[0], tick, ign)
+    uw = bool(job.get("uw"))
+    par.write_program(src, shape, variants[0], tick, ign, uw)
     r1 = par.run_parallel(src, cache_dir=cache, n=n, policy=par.Policy(**job["policies"][0]), gate=gate, store=store)
     out["runs"].append({"n": n, "shape": shape, "events": r1["events"], "status": r1["status"], "kind": "cold-parallel"})
     check(r1, variants[0], "cold -n %d" % n, "parallel")
     if len(variants) > 1:
         tick += 100
-        par.write_program(src, shape, variants[1], tick, ign)
+        par.write_program(src, shape, variants[1], tick, ign, uw)
         r2 = par.run_parallel(src, cache_dir=cache, n=n, policy=par.Policy(**job["policies"][1]), gate=gate, store=store)
         out["runs"].append({"n": n, "shape": shape, "events": r2["events"], "status": r2["status"], "kind": "warm-parallel"})
         check(r2, variants[1], "warm -n %d after edit" % n, "parallel")
     if len(variants) > 2:
         tick += 100
-        par.write_program(src, shape, variants[2], tick, ign)
+        par.write_program(src, shape, variants[2], tick, ign, uw)
         r3 = par.run_sequential(src, cache_dir=cache, store=store, tick=5000)
         check(r3, variants[2], "warm sequential run on the cache a parallel build left", "sequential-warm")
         # and one more parallel run with no edit at all: everything fresh
@@ -170,8 +171,12 @@ def main(argv: list[str]) -> int:
     # have to carry the indirect dependencies): diamond m4 / fan m6 / chain m3
     for i, (shape, ig, vs) in enumerate([("diamond", [4], [{}, {1: 1}, {1: 0}]), ("diamond", [4, 2], [{1: 1}, {}, {1: 1}]), ("fan", [6], [{}, {1: 1}, {}]),
                                          ("chain", [3], [{}, {1: 1}, {1: 0}]), ("chain", [2, 3], [{1: 1}, {}, {1: 1}])]):
-        jobs.append({"shape": shape, "n": 2 + i % 2, "store": "sqlite" if i % 2 else "fs", "variants": vs, "ign": ig,
+        jobs.append({"shape": shape, "n": 2 + i % 2, "store": "sqlite" if i % 2 else "fs", "variants": vs, "ign": ig, "uw": True,
                      "policies": [{"name": named[i % len(named)]}, {"name": named[(i + 2) % len(named)]}]})
+    # the base variants once more with the inferred module-level variables
+    for i, name in enumerate(named[:3]):
+        jobs.append({"shape": ("fan", "chain", "diamond")[i], "n": 2 + i % 2, "store": "fs", "variants": base_variants[(i + 2) % len(base_variants)], "uw": True,
+                     "policies": [{"name": name}, {"name": named[(i + 3) % len(named)]}]})
     if tier == "thorough":
         for n in (1, 4, 6, 8):
             for i, name in enumerate(named):
